@@ -109,8 +109,8 @@ func VictimOracle() clustermc.Oracle {
 		evictedPerJob := map[string]map[string]int{} // job -> podset -> evicted so far
 		countedPod := map[string]bool{}
 		count := func(d schedrun.Decision) { // (decision of the cycle)
-			if countedPod[d.Pod] {
-				return
+			if countedPod[d.Pod] || d.Failed {
+				return // (an eviction whose API call failed or was refused removes nothing)
 			}
 			if j := podJob[d.Pod]; j != nil {
 				if p := t.Pre.Pod(d.Pod); p != nil {
